@@ -26,7 +26,8 @@ def gen_call_case(ctx, rng, wrong_kind_p=0.0, nevents=NEVENTS, only=None, litera
             if form == "lit":
                 r[i] = rows[0][i]
     return {"fn": f["id"], "used": [[p["keyword"], kind, form] for p, kind, form in call.used],
-            "closure": call.closure, "typed": typed, "rows": [[enc(v) for v in r] for r in rows]}
+            "closure": call.closure, "typed": typed, "tight": typed and rng.random() < 0.4,
+            "rows": [[enc(v) for v in r] for r in rows]}
 
 
 def rebuild_call(ctx, case):
@@ -55,7 +56,7 @@ def exec_call_case(ctx, case, cpu_limit=20.0, extra=None):
             if form == "event":
                 ev["a%d" % i] = r[i]
         events.append({"e": enc(ev)})
-    base = {"op": "run", "probe": False, "ext": {"event": call.schema(case["typed"])}, "events": events}
+    base = {"op": "run", "probe": False, "ext": {"event": call.schema(case["typed"], rows if case.get("tight") else None)}, "events": events}
     if extra:
         base.update(extra)
     req = dict(base)
